@@ -77,7 +77,8 @@ func (t *VariantType) Accept(v px.Visitor, g px.Guard) {
 
 func (t *VariantType) Equals(o interface{}, g px.Guard) bool {
 	ot, ok := o.(*VariantType)
-	return ok && len(t.types) == len(ot.types) && px.IncludesAll(t.types, ot.types, g)
+	// inclusion in both directions: with a repeated member, inclusion one way does not imply the other
+	return ok && len(t.types) == len(ot.types) && px.IncludesAll(t.types, ot.types, g) && px.IncludesAll(ot.types, t.types, g)
 }
 
 func (t *VariantType) Generic() px.Type {
